@@ -1,4 +1,5 @@
 import F3.Proofs.WalRead
+import F3.Gen.Wal
 /-!
 # C11 — WAL: acknowledged entries survive crashes and torn writes; purge is conservative
 
@@ -195,5 +196,43 @@ example : (run cfgT init [.open, .append e1 "a", .rotate, .append e3 "b", .purge
 
 /-- … and keeps a closed file holding an entry at the purge epoch (`purge_conservative` is not vacuous). -/
 example : (run cfgT init [.open, .append e1 "a", .rotate, .append e3 "b", .purge 3]).dir.names = ["a", "b"] := by decide
+
+/-! ## Regenerated: the rotation decision of `maybeRotate` as it stands in `internal/writeaheadlog/wal.go`
+
+`F3.Gen.Wal.maybeRotate` is translated on every run (`tools/go2lean/targets.d/Wal.json`) from the whole
+function: no active file → `rotate()` (code 1); `Stat()` failed → error (code 2); `stats.Size() >
+rotateAt` → `rotate()` (1), else `nil` (0). The constant `rotateAt` (`1 << 20`) is read from the source. -/
+
+/-- the code `maybeRotate` of the source returns in the situation of the model (no `Stat` failure; the
+file size is the model's `fileSize` of the active file) -/
+def rotateCode {α β : Type} (cfg : Cfg α β) (d : Dir β) (m : Mem) : Int :=
+  match m.active with
+  | none => F3.Gen.Wal.maybeRotate false 0 false
+  | some st => F3.Gen.Wal.maybeRotate false (fileSize cfg ((d.get st.name).getD []) : Nat) true
+
+/-- **The model's rotation rule is the source's.** With the threshold of the source (`cfg.rotateAt` =
+the value the driver runs with), for every directory and handle state `maybeRotate` of the model rotates
+exactly when the regenerated function says `rotate()`, and otherwise leaves everything untouched. Changing
+the comparison or the constant `rotateAt` in `wal.go` breaks this. -/
+theorem maybe_rotate_is_regenerated {α β : Type} (cfg : Cfg α β) (d : Dir β) (m : Mem) (nm : Name)
+    (hr : cfg.rotateAt = 1048576) :
+    maybeRotate cfg d m nm = if rotateCode cfg d m = 1 then rotate d m nm else (d, m, true) := by
+  unfold maybeRotate rotateCode F3.Gen.Wal.maybeRotate
+  cases m.active with
+  | none => rfl
+  | some st =>
+    simp only [hr, Bool.not_true, Bool.false_eq_true, if_false, decide_eq_true_eq]
+    repeat' split
+    all_goals (first | rfl | (exfalso; omega))
+
+/-- `maybeRotate` is what `Append` runs first: its only call site, from the source -/
+theorem maybe_rotate_call_site :
+    F3.Gen.Wal.callSites = [("internal/writeaheadlog/wal.go", "maybeRotate", [])] := by decide
+
+-- non-vacuity: both decisions at the boundary, and the no-active-file case
+example : F3.Gen.Wal.maybeRotate false 1048576 true = 0 ∧ F3.Gen.Wal.maybeRotate false 1048577 true = 1 ∧
+    F3.Gen.Wal.maybeRotate false 0 false = 1 ∧ F3.Gen.Wal.maybeRotate true 0 true = 2 := by decide
+example : rotateCode (tokCfg 1048576) [("a", [])] ⟨[], some ⟨"a", 0⟩⟩ = 0 ∧
+    rotateCode (tokCfg 1048576) [] ⟨[], none⟩ = 1 := by decide
 
 end F3.Props.C11
